@@ -40,13 +40,25 @@ def iterAvailableHunks (b : Nat) : Prog (List Nat) := do
   | .ok hs => pure hs
   | .error _ => .panic "iter_available_hunks: expect(hunks available)"
 
+/-- `IndexEntry::check` (src/index/entry.rs): can an entry read from an index be used safely? -/
+def entryUsable (e : IndexEntry) : Bool :=
+  isValid e.apath &&
+  (entryTimeNs e.mtime e.mtimeNanos).isSome &&
+  e.kind != .unknown &&
+  (e.kind != .symlink || e.target.isSome) &&
+  e.addrs.all fun a => a.start + a.len < 18446744073709551616
+
 /-- `IndexRead::read_hunk`: `none` = the file is not there (`Ok(None)`); `fail` = any other
 transport error, or bytes that do not decompress/deserialise. -/
 def readHunk (b n : Nat) : Prog (Option (List IndexEntry)) := do
   match ← perform (.read (.hunk b n)) with
   | .err .notFound => pure none
   | .err e => .fail (.transport e)
-  | .val (.hunk es) => pure (some es)
+  | .val (.hunk es) =>
+    -- `IndexEntry::check` on every entry: a hunk that decodes into values no version writes
+    -- (invalid path, time out of range, unknown kind, symlink without target, address overflow)
+    -- is treated like one that does not decode
+    if es.all entryUsable then pure (some es) else .fail .invalidMetadata
   | .val _ => .fail .json
   | _ => .fail (.transport .other)
 
